@@ -116,6 +116,10 @@ def check_main(prop, tier, engine, engine_name, families, level, rule, assumptio
         print('pool: %s (%.1fs)' % (json.dumps(pinfo)[:300], time.time() - t0))
         for mm in pinfo['pool_mismatch']:
             print('POOL-MISMATCH %s' % json.dumps(mm)[:300])
+    elif hasattr(main_engine, 'build_pool'):
+        # an engine with a world of its own (subsim: program groups measured alone in pristine processes)
+        pool, pinfo = main_engine.build_pool(seed, tier)
+        print('engine pool: %s (%.1fs)' % (json.dumps(pinfo)[:400], time.time() - t0))
     else:
         pool, pinfo = [], {'note': 'this engine writes its own messages (bufrgen) per run; no shared pool'}
     stats = Stats()
@@ -278,6 +282,13 @@ def slim(plan):
             it['hex'] = it['hex'][:64] + '...(%d bytes)' % (len(it['hex']) // 2)
         it.pop('adm_info', None)
         it.pop('truth', None)
+    for a in p.get('alone', []):
+        if len(a.get('hex', '')) > 80:
+            a['hex'] = a['hex'][:64] + '...(%d bytes)' % (len(a['hex']) // 2)
+        if len(a.get('vals', '')) > 120:
+            a['vals'] = a['vals'][:100] + '...'
+    if len(p.get('json0', '')) > 200:
+        p['json0'] = p['json0'][:160] + '...'
     if 'cuts' in p and len(p['cuts']) > 12:
         p['cuts'] = p['cuts'][:6] + ['...'] + p['cuts'][-3:]
     if len(p.get('tail', '')) > 80:
